@@ -366,10 +366,16 @@ var opDefs = []opDef{
 		toks := append([]string{fmt.Sprintf("u32:%d", card), tf, tt}, dt...)
 		toks = append(toks, fmt.Sprintf("u32:%d", pin), "list:"+strings.Join(ft, ","))
 		return toks, func(u uhppote.IUHPPOTE) string {
-			before := fmt.Sprintf("%v", c.Doors)
+			// the format list is a slice the caller keeps and uses again: an earlier call with it (on another client)
+			// must leave it as it was
+			before := fmt.Sprintf("%v %v", c.Doors, formats)
+			if len(formats) > 0 {
+				other, _ := newClient(nil, types.BroadcastAddr{})
+				other.PutCard(dev|1, types.Card{CardNumber: 8165538, Doors: map[uint8]uint8{1: 1}}, formats...)
+			}
 			res := boolRes(u.PutCard(dev, c, formats...))
-			if fmt.Sprintf("%v", c.Doors) != before {
-				return "mutated-argument"
+			if fmt.Sprintf("%v %v", c.Doors, formats) != before {
+				return res + " ; mutated-argument"
 			}
 			return res
 		}
@@ -728,6 +734,8 @@ func genArrivals(r *rng.R, op opDef, dev uint32, focus string) ([][]byte, string
 			b[1] = rng.Pick(r, b[1]^0x02, 0x00, 0x94, 0x20, 0xff)
 		case "wrong-som":
 			b[0] = rng.Pick(r, byte(0x18), 0x00, 0x71, 0xff)
+		case "som-19-code-20": // the one header the codec exempts (a v6.62 event), as the reply to another operation
+			b[0], b[1] = 0x19, 0x20
 		case "som-19":
 			b[0] = 0x19
 		case "malformed":
@@ -748,6 +756,20 @@ func genArrivals(r *rng.R, op opDef, dev uint32, focus string) ([][]byte, string
 				} else {
 					b[f.off+r.Intn(f.w)] = rng.Pick(r, byte(0x1a), 0xa1, 0xff, 0x0f)
 				}
+			}
+		case "calendar":
+			// a date field set to a borderline or impossible calendar date (29 February of leap / non-leap years …)
+			cands := []frange{}
+			for _, f := range fieldRanges(op.reply) {
+				switch f.kind {
+				case "date", "datetime", "dateptr", "datetimeptr":
+					cands = append(cands, f)
+				}
+			}
+			if len(cands) > 0 {
+				f := cands[r.Intn(len(cands))]
+				d := calendarDates[r.Intn(len(calendarDates))]
+				copy(b[f.off:f.off+4], []byte{bcdByte(d[0] / 100), bcdByte(d[0] % 100), bcdByte(d[1]), bcdByte(d[2])})
 			}
 		case "zeroed-field":
 			// a date / time field whose bytes are all zero (the "no value" sentinel) while the rest of the
@@ -778,7 +800,7 @@ func genArrivals(r *rng.R, op opDef, dev uint32, focus string) ([][]byte, string
 		}
 		return b
 	}
-	classes := []string{"valid", "short", "long", "wrong-serial", "serial-0", "wrong-code", "wrong-som", "som-19", "malformed"}
+	classes := []string{"valid", "short", "long", "wrong-serial", "serial-0", "wrong-code", "wrong-som", "som-19", "som-19-code-20", "malformed"}
 	switch focus {
 	case "valid":
 		return [][]byte{mk("valid")}, "valid"
@@ -786,9 +808,14 @@ func genArrivals(r *rng.R, op opDef, dev uint32, focus string) ([][]byte, string
 		if r.Chance(1, 5) {
 			return [][]byte{mk("zeroed-field")}, "zeroed-field"
 		}
+		if r.Chance(1, 5) {
+			return [][]byte{mk("calendar")}, "calendar"
+		}
 		return [][]byte{mk("mutated")}, "mutated-field"
 	case "silence":
 		return nil, "silence"
+	case "refused": // nothing arrives and the directed paths fail at once, the way a refused connection does
+		return nil, "refused"
 	}
 	n := 1 + r.Intn(4)
 	seq := [][]byte{}
@@ -816,6 +843,12 @@ func runOp(c *ctx, u uhppote.IUHPPOTE, d *fake.Driver, g cfgGen, op opDef, dev u
 	d.Calls = nil
 	d.Datagrams = arrivals
 	d.Consumed = 0
+	d.Refuse = false
+	for _, tg := range tags {
+		if tg == "arrivals/refused" {
+			d.Refuse = true
+		}
+	}
 	lastResult = nil
 	res := guard(func() string { return invoke(u) })
 	if res != "panic" && render(lastResult) == "panic" {
@@ -854,7 +887,7 @@ func streamOps(c *ctx) {
 		g := genCfg(r, dev)
 		u, d := newClient(g.devices, g.broadcast)
 		wild := r.Chance(1, 4)
-		arr, cls := genArrivals(r, op, dev, rng.Pick(r, "valid", "valid", "silence"))
+		arr, cls := genArrivals(r, op, dev, rng.Pick(r, "valid", "valid", "silence", "valid", "valid", "refused"))
 		runOp(c, u, d, g, op, dev, wild, arr, "phase/args", "arrivals/"+cls)
 	}
 	// (2) reply-focused (C02 C03): valid arguments, datagram sequences and mutated replies
